@@ -1408,7 +1408,8 @@ namespace xtl
     {
         size_type old_size = m_storage.size();
         m_storage.set_size(error_policy::check_add(size(), count));
-        traits_type::copy(data() + old_size, s, count);
+        // s may point into the string itself and run over its terminator, which is where the copy starts to write
+        traits_type::move(data() + old_size, s, count);
         return *this;
     }
 
